@@ -262,6 +262,7 @@ class Unit:
             if rw.get("must") and n == 0 and (not only or fnkey in only):
                 raise X.Undecided(f"lost anchor: rewrite {rw['rule']} pattern {rw['re']!r} no longer matches in {fnkey}")
             self._log(rw["rule"], fnkey, n, rw.get("note"))
+        text, n = X.r8_closure(text, self.cfg.get("closure", []), fnkey); self._log("R8-closure-schema", fnkey, n)
         idents, pats = self._typemap()
         text, n = X.r4_typemap(text, idents, pats); self._log("R4-typemap", fnkey, n)
         text, n = X.r13_bool_bitor(text); self._log("R13-bool-bitor", fnkey, n)
@@ -303,7 +304,10 @@ class Unit:
         # functions
         default_crate = self.cfg.get("unit", {}).get("crate", "server")
         for sp in self.specs:
-            self._emit_fn(g, sp, default_crate, smoke)
+            self._emit_fn(g, sp, default_crate, False)
+            if smoke and not sp.no_smoke:
+                # vacuity twin: same requires, same body, `ensures false` only; must FAIL to verify
+                self._emit_fn(g, sp, default_crate, True)
         p = os.path.join(self.dir, "lemmas.rs")
         if os.path.exists(p) and not smoke:
             self._emit_file(g, p, "lemma")
@@ -344,10 +348,13 @@ class Unit:
         relfile = os.path.relpath(it.file, X.REPO)
         first_line = idx.line_of(it)
         fnkey = sp.rename or key
+        real_fnkey = fnkey
+        if smoke:
+            fnkey = fnkey + "__smoke"
         sha = hashlib.sha256(src.encode()).hexdigest()[:16]
-        text = self.rewrite_common(src, fnkey, sp)
+        text = self.rewrite_common(src, real_fnkey, sp)
         if sp.slice_from is not None:
-            text = self._slice(text, sp, fnkey)
+            text = self._slice(text, sp, real_fnkey)
         text, nfor = X.r7_forlabel(text); self._log("R7-forlabel", fnkey, nfor)
         # 'at' insertions (proof hints) — anchors are source fragments; a lost anchor is undecided
         for a in sp.ats:
@@ -378,8 +385,9 @@ class Unit:
             head2, n = re.subn(r"\(\s*&\s*self\b", "(&mut self", head, count=1)
             self._log("R6-receiver", fnkey, n)
             head = head2
-        if sp.rename:
-            head = re.sub(r"\bfn\s+" + re.escape(it.name) + r"\b", "fn " + sp.rename.split("::")[-1], head, count=1)
+        newname = (sp.rename.split("::")[-1] if sp.rename else it.name) + ("__smoke" if smoke else "")
+        if newname != it.name:
+            head = re.sub(r"\bfn\s+" + re.escape(it.name) + r"\b", "fn " + newname, head, count=1)
         # strip visibility qualifiers, force pub
         head = re.sub(r"^\s*(pub(\([^)]*\))?\s+)?", "pub ", head, count=1)
         if arrow >= 0 and sp.ret:
@@ -393,8 +401,8 @@ class Unit:
             head = text[:a_end].rstrip()
             if sp.recv_mut:
                 head = re.sub(r"\(\s*&\s*self\b", "(&mut self", head, count=1)
-            if sp.rename:
-                head = re.sub(r"\bfn\s+" + re.escape(it.name) + r"\b", "fn " + sp.rename.split("::")[-1], head, count=1)
+            if newname != it.name:
+                head = re.sub(r"\bfn\s+" + re.escape(it.name) + r"\b", "fn " + newname, head, count=1)
             head = re.sub(r"^\s*(pub(\([^)]*\))?\s+)?", "pub ", head, count=1)
             head = head + f" ({sp.ret}: {rt})" + where
         owner = it.owner if "::" in fnkey else ""
@@ -417,15 +425,15 @@ class Unit:
                 t = c.text if c.text.rstrip().endswith(",") else c.text + ","
                 g.lines.append("        " + t)
                 g.origin.append(dict(kind="clause", label=c.label, fn=fnkey, clause=kindname, text=c.text))
-                if c.label:
+                if c.label and not smoke:
                     nlab += 1
                     if c.label in self.labels and self.labels[c.label]["fn"] != fnkey:
                         raise ValueError(f"duplicate label {c.label}")
                     self.labels[c.label] = dict(fn=fnkey, kind=kindname, line=line_no, text=c.text)
         emit_clauses("requires", sp.requires, "requires")
         ens = list(sp.ensures)
-        if smoke and not sp.no_smoke:
-            ens = ens + [Clause("", "false")]
+        if smoke:
+            ens = [Clause("", "false")]
         emit_clauses("ensures", ens, "ensures")
         if sp.returns_clause:
             g.emit("    returns " + sp.returns_clause, kind="gen")
@@ -456,7 +464,7 @@ class Unit:
                         t = c.text if c.text.rstrip().endswith(",") else c.text + ","
                         g.lines.append("            " + t)
                         g.origin.append(dict(kind="clause", label=c.label, fn=fnkey, clause=f"loop{n}.{kw}", text=c.text))
-                        if c.label:
+                        if c.label and not smoke:
                             nlab += 1
                             self.labels[c.label] = dict(fn=fnkey, kind=f"loop{n}.{kw}", line=line_no, text=c.text)
             pos = off
@@ -465,7 +473,9 @@ class Unit:
             g.emit("}", kind="gen")
         g.emit("", kind="gen")
         end_line = len(g.lines)
-        self.fn_ranges.append([start_line, end_line, fnkey, "extracted", sp.implicit, "exec"])
+        self.fn_ranges.append([start_line, end_line, fnkey, "smoke" if smoke else "extracted", sp.implicit, "exec"])
+        if smoke:
+            return
         self.functions.append(dict(fn=fnkey, crate=crate, file=relfile, line=first_line, sha256_16=sha,
                                    labelled_clauses=nlab, implicit_label=sp.implicit,
                                    loops_with_invariants=sorted(sp.loops.keys())))
